@@ -137,6 +137,19 @@ PROGRAMS = {
         ["add", "l", ["cp", 7, S("a2", lo=0), S("d3"), 2.0], "no-delay"],
         ["add", "l", ["cp", 4, 0.0, S("d4"), 0.7], "no-delay"],
         ["add", "l", ["cp", 6, S("a3", lo=0), S("d5"), 0.7], "no-delay"]]),
+    # two microwave channels under an SLM mask: the first pulse of mw2 starts later but ends earlier than the first pulse of mw
+    "xy_slm_two": dict(device="mock", prog=[
+        ["declare", "mw", "mw_global"], ["declare", "mw2", "mw_global"], ["config_slm", ["q1"]],
+        ["add", "mw", ["cp", 8, S("a0", lo=0), S("d0"), 0.4]],
+        ["delay", "mw2", 2], ["add", "mw2", ["cp", 3, S("a1", lo=0), S("d1"), 1.4], "no-delay"],
+        ["add", "mw2", ["cp", 6, S("a2", lo=0), S("d2"), 0.9], "no-delay"]]),
+    # shaped (non-constant) amplitude waveforms whose samples may all be zero, constant detuning, a phase of their own: still pulses
+    "zero_amp_shaped": dict(device="mock", prog=[
+        ["declare", "g", "rydberg_global"],
+        ["add", "g", ["cp", 8, S("a0", lo=0), S("d0"), 0.5]],
+        ["add", "g", ["pulse", ["ramp", 6, S("a1", lo=0, hi=5), S("a2", lo=0, hi=5)], ["const", 6, S("d1")], 1.2]],
+        ["add", "g", ["pulse", ["custom", [S("c0", lo=0), S("c1", lo=0), S("c2", lo=0), S("c3", lo=0)]], ["const", 4, S("d2")], 2.1]],
+        ["add", "g", ["cp", 5, S("a3", lo=0), S("d3"), 0.3]]]),
     # the Global channel g is left in EOM mode and is shorter than l: beyond its end it idles at the off-detuning
     "eom_open_short": dict(device="virt", prog=[
         ["declare", "g", "ryd_glob"], ["declare", "l", "ram_glob"],
@@ -251,7 +264,18 @@ def h_program(shape):
         T = samples.max_duration
         qids = list(seq.register.qubit_ids)
         mask_targets = set(seq._slm_mask_targets) if seq._slm_mask_time else set()
-        mask_end = seq._slm_mask_time[1] if seq._slm_mask_time else 0
+        # "while the SLM mask is on": from t=0 to the end of the first pulse any Global (non-DMM) channel plays - the channel whose
+        # first pulse starts first decides (computed from the frozen slot copies, not read back from the implementation)
+        firsts = []
+        for name, cs in seq._schedule.items():
+            if cs.channel_obj.addressing != "Global" or isinstance(cs.channel_obj, DMM):
+                continue
+            for sl in frozen[name]:
+                if isinstance(sl.type, Pulse) and not l1.ref_is_detuned_delay(sl.type):
+                    firsts.append((sl.ti, sl.tf))
+                    break
+        mask_end = (min(firsts, key=lambda x: x[0])[1] if firsts else 0) if mask_targets else 0
+        obs.append(("nested:mask_window", (list(seq._slm_mask_time)[1:] == ([mask_end] if firsts else [])) if mask_targets else True))
         for all_local in (False, True):
             try:
                 nd = samples.to_nested_dict(all_local=all_local)
@@ -290,7 +314,7 @@ def h_program(shape):
                                 loc[q][0][t] = loc[q][0][t] + a[k]
                                 loc[q][1][t] = loc[q][1][t] + d[k] * w
                                 if not is_dmm:
-                                    locph.setdefault((q, t), []).append((facade._unwrap0(sl.type.phase), l1.ref_is_detuned_delay(sl.type)))
+                                    locph.setdefault((q, t), []).append((facade._unwrap0(sl.type.phase), l1.ref_is_detuned_delay(sl.type), name))
                     if as_global and cs.in_eom_mode() and cs.get_duration() < T:
                         # "extending only pads ... off-detuning if still in EOM mode": the shorter channel idles at detuning_off
                         for t in range(cs.get_duration(), T):
@@ -311,9 +335,17 @@ def h_program(shape):
                                                          if t not in unspecified.get(q, ())])))
                     # where exactly one pulse drives the atom (per-atom entry), the atom's phase there is that pulse's phase
                     # (two slots at once on one atom - even when one of them has zero amplitude - add their phases: outside the claim)
-                    single = [(t, ph[0][0]) for (qq, t), ph in locph.items() if qq == q and len(ph) == 1 and not ph[0][1]]
+                    single = [(t, ph[0][0], ph[0][2]) for (qq, t), ph in locph.items() if qq == q and len(ph) == 1 and not ph[0][1]]
+                    globs = [nm for nm, c2 in seq._schedule.items() if c2.channel_obj.basis == basis and not isinstance(c2.channel_obj, DMM)
+                             and c2.channel_obj.addressing == "Global"]
                     if single and e is not None:
-                        obs.append((tag + ":atom_phase", AND(*[EQ(e["phase"][t], p_) for t, p_ in single])))
+                        # (with several Global channels on the basis the obligation gets a label of its own: finding F17 shows there)
+                        lab = tag + (":atom_phase" if len(globs) < 2 else ":atom_phase_with_other_global_channels")
+                        obs.append((lab, AND(*[EQ(e["phase"][t], p_) for t, p_, _ in single])))
+                        if len(globs) >= 2:
+                            ext = {nm: list(samples.channel_samples[nm].extend_duration(T).phase) for nm in globs}
+                            inp.publish("phases_of_other_global_channels_added@" + lab, AND(*[
+                                EQ(e["phase"][t], p_ + sum(ext[nm][t] for nm in globs if nm != own)) for t, p_, own in single]))
         # ---- sample(seq, extended_duration=D): every channel padded to D (D = the sequence duration included)
         Tseq = seq.get_duration()
         for ext in shape["ext"]:
